@@ -31,13 +31,15 @@ def cases(tier, seed):
         yield "sc.create", {"table": table, "mode": mode, "cells": cells,
                             "bins_mode": "dict" if extra_kind == 2 or h % 7 == 0 else "single",
                             "form": ["frame", "iter", "dict"][h % 3], "open": ["uri", "handle"][h % 2],
-                            "ordered": h % 4 != 2, "mergebuf": rng.choice([1, 3, 10 ** 6])}
+                            "ordered": h % 4 != 2, "mergebuf": rng.choice([1, 3, 10 ** 6]),
+                            # every 5th: float64 counts asked for through dtypes= (values are multiples of 1/4)
+                            **({"scale": 4} if h % 5 == 1 else {})}
 
 
 def run(tier, seed, only_case=None):
     r = Run("C17", tier, seed, replay=only_case is not None)
     r.rule = ("one case = (common bin table of six shapes, 1-4 cells with arbitrary names - dots, dashes, spaces, digits, non-ASCII - and "
-              "arbitrary, including empty, matrices; a single bin table, a single table with an extra column, or per-cell tables "
+              "arbitrary, including empty, matrices, int32 counts or float64 counts (quarters) requested through dtypes=; a single bin table, a single table with an extra column, or per-cell tables "
               "with per-cell extra columns; pixels as frame / iterator of chunks / dict; storage mode). The file is listed, "
               "recognised, every cell is read through the ordinary Cooler interface (URI or handle) and raw, and the HDF5 object "
               "addresses of the bin/chromosome columns are compared with the root's. non-trivial = >= 2 cells, one non-empty.")
